@@ -258,6 +258,81 @@ func TestC42(t *testing.T) {
 	r.Set("porcupine_unknown", unknown)
 	r.Set("distinct_interleaving_signatures", len(sigs))
 
+	// ---- a composed future that is completed from outside before its source ---------------
+	// (a timeout / cancel path completes the result of ThenCompose directly). The composer is a
+	// callback registered on the source: it still runs exactly once when the source completes,
+	// the result keeps its first value, and callbacks on the result ran once with that value.
+	xrng := r.Rng("compose-completed-first")
+	nEarly := r.N(600, 40000)
+	earlyClasses := map[string]int{}
+	for c := 0; c < nEarly; c++ {
+		src := future.New[int]()
+		inner := future.New[int]()
+		var composerRuns, outCallbacks atomic.Int32
+		var outSaw atomic.Int64
+		out := future.ThenCompose(src, func(v int) *future.Future[int] {
+			composerRuns.Add(1)
+			return inner
+		})
+		out.ThenAccept(func(v int) { outCallbacks.Add(1); outSaw.Store(int64(v)) })
+		// order of the three completions; "out" first in two thirds of the cases
+		orders := [][]string{{"out", "src", "inner"}, {"out", "inner", "src"}, {"src", "out", "inner"}, {"inner", "out", "src"}, {"src", "inner", "out"}}
+		ord := orders[xrng.Intn(len(orders))]
+		if xrng.Intn(3) > 0 {
+			ord = orders[xrng.Intn(2)]
+		}
+		concurrent := xrng.Intn(3) == 0
+		do := func(k string) {
+			switch k {
+			case "out":
+				out.Complete(-5)
+			case "src":
+				src.Complete(7)
+			case "inner":
+				inner.Complete(100)
+			}
+		}
+		okRet, _ := lib.Returns(20*time.Second, func() {
+			if !concurrent {
+				for _, k := range ord {
+					do(k)
+				}
+				return
+			}
+			var wg sync.WaitGroup
+			start := make(chan struct{})
+			for _, k := range ord {
+				wg.Add(1)
+				go func(k string) { defer wg.Done(); <-start; do(k) }(k)
+			}
+			close(start)
+			wg.Wait()
+		})
+		r.Eval(1)
+		w := map[string]any{"order": ord, "concurrent": concurrent}
+		if !okRet {
+			r.Inconclusive("compose-completed-first case did not return within the watchdog")
+			continue
+		}
+		if n := composerRuns.Load(); n != 1 {
+			r.Violation(fmt.Sprintf("composer-ran-%d-times-when-result-completed-first", min(int(n), 2)), fmt.Sprintf("the compose callback registered on the source ran %d times although the source completed; order %v", n, ord), w)
+		}
+		if n := outCallbacks.Load(); n != 1 {
+			r.Violation(fmt.Sprintf("result-callback-ran-%d-times", min(int(n), 2)), fmt.Sprintf("a callback on the composed future ran %d times", n), w)
+		} else if !concurrent {
+			want := int64(-5)
+			if ord[0] != "out" && !(ord[0] == "src" && ord[1] == "out") && !(ord[0] == "inner" && ord[1] == "out") {
+				want = 100
+			}
+			if outSaw.Load() != want {
+				r.Violation("composed-future-value-not-first-completion", fmt.Sprintf("the composed future's callback saw %d, its first completion was %d (order %v)", outSaw.Load(), want, ord), w)
+			}
+		}
+		earlyClasses[fmt.Sprintf("%v/%v", ord, concurrent)]++
+		r.Distinct(fmt.Sprintf("early %v %v %d", ord, concurrent, c))
+	}
+	r.Set("compose_result_completed_from_outside_classes", earlyClasses)
+
 	// ---- ThenCompose chains --------------------------------------------------------
 	crng := r.Rng("chain")
 	chainSigs := map[string]struct{}{}
